@@ -135,10 +135,22 @@ def gen_prefix(rng, target_id):
     return ops
 
 
+def _run_lines_retry(args, lines, **kw):
+    """another check may be relinking a shared library of the common build tree at this very
+    moment (`file too short` / `cannot open shared object`): wait and retry"""
+    import time as _t
+    for _ in range(12):
+        rc, out = vlib.run_lines(args, lines, **kw)
+        if not any("error while loading shared libraries" in l for l in out[:3]):
+            return rc, out
+        _t.sleep(5)
+    return rc, out
+
+
 def run_event(exe, cfg, script, dump=False):
     line = "run " + cfg + (" dump=1" if dump else "") + " script=" + ",".join(script)
-    rc, out = vlib.run_lines([exe], [line], env={"CELER_LOG_LOCAL": "critical", "CELER_LOG": "critical"},
-                             timeout=1200)
+    rc, out = _run_lines_retry([exe], [line], env={"CELER_LOG_LOCAL": "critical", "CELER_LOG": "critical"},
+                               timeout=1200)
     return line, out
 
 
@@ -215,7 +227,7 @@ def run(ctx):
     n_corpus = len(ops)
     ops += gen_sort_ops(ctx.rng, 400 if quick else 5000)
     ops += ["count 3", "sort 0 1 / 0", "frob", "backfill 3 1"]
-    _, oh = vlib.run_lines([exe], ops, env={"CELER_LOG_LOCAL": "critical"})
+    _, oh = _run_lines_retry([exe], ops, env={"CELER_LOG_LOCAL": "critical"})
     diverged = []
     if ps["model_ok"]:
         _, om = vlib.run_lines([vlib.model_exe("C06")], ops)
